@@ -26,14 +26,14 @@ fn run_script(is256: bool, ops: &str, input: &[u8]) -> Option<String> {
             ("s", 2) => {
                 if !is256 { panic!("no shake128 squeeze") }
                 let n: usize = parts[1].parse().ok()?;
-                let mut o = vec![0u8; n];
+                let mut o = vec![0xA5u8; n];
                 fips202::shake256_squeeze(&mut o, n, &mut st);
                 out.extend_from_slice(&o);
             }
             ("b", 2) => {
                 let n: usize = parts[1].parse().ok()?;
                 let r = if is256 { fips202::SHAKE256_RATE } else { fips202::SHAKE128_RATE };
-                let mut o = vec![0u8; n * r];
+                let mut o = vec![0xA5u8; n * r];
                 if is256 { fips202::shake256_squeezeblocks(&mut o, n, &mut st) } else { fips202::shake128_squeezeblocks(&mut o, n, &mut st) }
                 out.extend_from_slice(&o);
             }
@@ -57,17 +57,17 @@ pub fn fips_fn(f: &str, a: &[&str]) -> Option<String> {
         ("shake128_script", 2) => { let inp = unhex(a[1])?; run_script(false, a[0], &inp) }
         ("shake256", 2) => {
             let n: usize = a[0].parse().ok()?; let inp = unhex(a[1])?;
-            let mut o = vec![0u8; n]; fips202::shake256(&mut o, n, &inp, inp.len()); ok(hex(&o))
+            let mut o = vec![0xA5u8; n]; fips202::shake256(&mut o, n, &inp, inp.len()); ok(hex(&o))
         }
         ("shake128_stream_init", 3) => {
             let seed = unhex(a[0])?; let nonce: u16 = a[1].parse().ok()?; let nb: usize = a[2].parse().ok()?;
             let mut st = KeccakState::default(); fips202::shake128_stream_init(&mut st, &seed, nonce);
-            let mut o = vec![0u8; nb * fips202::SHAKE128_RATE]; fips202::shake128_squeezeblocks(&mut o, nb, &mut st); ok(hex(&o))
+            let mut o = vec![0xA5u8; nb * fips202::SHAKE128_RATE]; fips202::shake128_squeezeblocks(&mut o, nb, &mut st); ok(hex(&o))
         }
         ("shake256_stream_init", 3) => {
             let seed = unhex(a[0])?; let nonce: u16 = a[1].parse().ok()?; let nb: usize = a[2].parse().ok()?;
             let mut st = KeccakState::default(); fips202::shake256_stream_init(&mut st, &seed, nonce);
-            let mut o = vec![0u8; nb * fips202::SHAKE256_RATE]; fips202::shake256_squeezeblocks(&mut o, nb, &mut st); ok(hex(&o))
+            let mut o = vec![0xA5u8; nb * fips202::SHAKE256_RATE]; fips202::shake256_squeezeblocks(&mut o, nb, &mut st); ok(hex(&o))
         }
         ("keccakf1600_statepermute", 1) => {
             let v: Option<Vec<u64>> = a[0].split(',').map(|x| x.parse::<u64>().ok()).collect();
@@ -105,13 +105,13 @@ macro_rules! sign_set {
             match (f, a.len()) {
                 ("keypair", 2) => {
                     let seed = opt_bytes(a[0])?; let tape = tape_arg(a[1])?;
-                    let mut pk = vec![0u8; pp::PUBLICKEYBYTES]; let mut sk = vec![0u8; pp::SECRETKEYBYTES];
+                    let mut pk = vec![0xA5u8; pp::PUBLICKEYBYTES]; let mut sk = vec![0xA5u8; pp::SECRETKEYBYTES];
                     with_tape(&tape, || sg::keypair(&mut pk, &mut sk, seed.as_deref()));
                     ok(format!("{} {}", hex(&pk), hex(&sk)))
                 }
                 ("signature", 4) => {
                     let msg = unhex(a[0])?; let sk = unhex(a[1])?; let rnd = a[2] == "1"; let tape = tape_arg(a[3])?;
-                    let mut sig = vec![0u8; pp::SIGNBYTES];
+                    let mut sig = vec![0xA5u8; pp::SIGNBYTES];
                     with_tape(&tape, || sg::signature(&mut sig, &msg, &sk, rnd));
                     ok(hex(&sig))
                 }
